@@ -19,7 +19,7 @@ use crate::util::{self, guard, Guard};
 use crate::world;
 
 /// Entry alphabet. A, B, C are the three keys of the family.
-pub const ENTRIES: [&str; 7] = ["vA", "vB", "vC", "iA", "mAB", "rA", "eA"];
+pub const ENTRIES: [&str; 9] = ["vA", "vB", "vC", "iA", "mAB", "rA", "eA", "uA", "uB"];
 
 pub struct Family {
     pub name: &'static str,
@@ -53,6 +53,9 @@ pub fn family(name: &'static str, names: [&str; 3]) -> Family {
         sig_json(&a_id, &sig_hex(&vb)),
         ra,
         sig_json(&a_id, ""),
+        // valid signatures by A and by B, labelled with key ids nobody has
+        sig_json(&"f".repeat(64), &sig_hex(&va)),
+        sig_json(&"e".repeat(64), &sig_hex(&vb)),
     ];
     Family { name, keys: ks, meta, sigs }
 }
@@ -64,6 +67,8 @@ fn entry_info(e: usize) -> (usize, bool) {
         "vA" | "rA" => (0, true),
         "vB" => (1, true),
         "vC" => (2, true),
+        // labelled with an unknown id: belongs to no key (index 9 is never authorised)
+        "uA" | "uB" => (9, false),
         _ => (0, false),
     }
 }
@@ -128,7 +133,9 @@ fn reason(list: &[usize], auth: &[usize]) -> String {
     let mut seen_valid = BTreeSet::new();
     for e in list {
         let (k, valid) = entry_info(*e);
-        if !auth.contains(&k) {
+        if k == 9 {
+            r.insert("signature-under-unknown-key-id");
+        } else if !auth.contains(&k) {
             r.insert("unauthorized-key");
         } else if !valid {
             r.insert(match ENTRIES[*e] {
@@ -256,7 +263,8 @@ pub fn run(tier: Tier) -> i32 {
     let mut acc = Acc::new();
     let mut bounds = vec![];
     for (f, maxlen) in &fams {
-        let ls = lists(*maxlen);
+        // quick tier: the two unknown-key-id entries only in lists of length <= 3
+        let ls: Vec<Vec<usize>> = lists(*maxlen).into_iter().filter(|l| tier.thorough() || l.len() < 4 || l.iter().all(|e| *e < 7)).collect();
         bounds.push(format!("{}: lists <= {maxlen} ({} lists)", f.name, ls.len()));
         let accs = util::par_fold(&ls, Acc::new, |acc, i, list| {
             acc.states += 1;
@@ -277,7 +285,7 @@ pub fn run(tier: Tier) -> i32 {
         acc.merge(Acc::merge_all(accs));
     }
     c.acc = acc;
-    c.rule = "state = signature list (sequence over {valid by A/B/C, garbage labelled A, B's signature relabelled A, second valid signature by A, empty labelled A}); transition = append one entry; each state is verified for every authorised sequence over {A,B,C} of length <= 3 (with duplicates, and empty) x thresholds {0,1,2,3,u32::MAX} x every iteration order of the internal signature map; non-trivial = list with an invalid entry or a repeated key id".into();
+    c.rule = "state = signature list (sequence over {valid by A/B/C, garbage labelled A, B's signature relabelled A, second valid signature by A, empty labelled A, A's / B's valid signature under an unknown key id}); transition = append one entry; each state is verified for every authorised sequence over {A,B,C} of length <= 3 (with duplicates, and empty) x thresholds {0,1,2,3,u32::MAX} x every iteration order of the internal signature map; non-trivial = list with an invalid entry or a repeated key id".into();
     c.bound_completed = bounds.join("; ");
     c.assume("ring's verification primitives are a trusted black box; three fixed keys per family");
     c.assume("sufficiency is only demanded when every key id occurs at most once in the list (as the statement says)");
